@@ -56,9 +56,9 @@ func absBig(n *big.Int) int64 {
 	}
 	return CAP + 4000
 }
-func absU64(n uint64) int64    { return absBig(new(big.Int).SetUint64(n)) }
-func absInt(n sdk.Int) int64   { return absBig(n.BigInt()) }
-func absI64(n int64) int64     { return absBig(big.NewInt(n)) }
+func absU64(n uint64) int64  { return absBig(new(big.Int).SetUint64(n)) }
+func absInt(n sdk.Int) int64 { return absBig(n.BigInt()) }
+func absI64(n int64) int64   { return absBig(big.NewInt(n)) }
 
 // concBig inverts absBig on the values schedules use.
 func concBig(a int64) *big.Int {
